@@ -229,6 +229,17 @@ Theorem C17_indic_content_partial : forall class cs tag out,
 Proof. exact indic_content_partial. Qed.
 Print Assumptions C17_indic_content_partial.
 
+(* For the eight scripts without an extra step the output is exactly the combining-class sort of the
+   expanded text E: class-0 characters of E keep their index (C17_sort_p gives the rest). *)
+Theorem C17_indic_positions : forall class cs tag out,
+  dispatch_action tag = ActIndic -> tag <> REF_BENGALI_TAG -> tag <> REF_KANNADA_TAG ->
+  preprocess_text class cs tag = Ok out ->
+  let E := flat_map expand_matra (cv_spec cs) in
+  out = sort_p class E /\ length out = length E /\
+  (forall i z, nth_error E i = Some z -> class z = 0 -> nth_error out i = Some z).
+Proof. exact indic_positions. Qed.
+Print Assumptions C17_indic_positions.
+
 Theorem C17_indic_circles : forall cs, circled cs (cv_spec cs) /\ subseq cs (cv_spec cs).
 Proof. exact (fun cs => conj (cv_spec_circled cs) (circled_subseq _ _ (cv_spec_circled cs))). Qed.
 Print Assumptions C17_indic_circles.
